@@ -362,9 +362,9 @@ var plans = map[string]Plan{
 	},
 	"C18": {
 		Level: "exploration",
-		Rule: "cases are (operation list, schedule parameters): K in 2..64 operations drawn from 14 kinds (Encode, Decode+force, Decode+EvaluateValue, stream write / read / skip under drawn segmentations, envelope encode / decode, ReadRequest, DecodeRequest, and ToWire / Encode / FromWire / Decode of the generated plugin-API types) on pairwise distinct values, run concurrently after a sequential baseline, under GOMAXPROCS in {1,2,16}, with drawn yields inside the codec's I/O callbacks, forced GCs (emptying the sync.Pools) and 1..8 repetitions. In a third of the cases some decoding operations get a bad input that Decode accepts and whose forcing fails part-way (a bool byte 2..255 beneath a list / set / map key / map value, also nested so that the failure surfaces inside the ForEach callback of an outer container; for generated types a struct beneath a list or map without a required field): they must fail alone and in company, and disturb nobody. In one case of 32, two or three extra operations (mostly decoders: stream read, generated Decode, ReadRequest, Decode, envelopes) carry a binary or string of 1 MiB+1 .. 1.5 MiB (distinct fills; as a field, list / set element, map key / value, or two in one value). At the end of the case every result returned earlier (baseline and last repetition; generated values re-rendered) is compared with the model again. " +
-			"A sequential state machine over pool reuse (decode-keep / force / partial = the consumer's callback gives up after n elements, then keeps or closes the value / close / evaluate / drop / GC / decode-bad = spoiled input then EvaluateValue, ForEach+Close of everything, or kept open; one script in 8 with up to three big binaries through stream-read / decode-force / decode-keep, results held without copying until the end of the script); K concurrent Sends with distinct payloads on one frame client against a delayed, segmented echo server (synchronous and buffered pipes); frame reader / writer under segmentation and sharing; MultiServiceGenerator / MultiHandle / concurrent.Range fan-out over 1..8 in-process plugins. The whole binary runs under the race detector. " +
-			"Oracle: every concurrent result equals its sequential baseline (which equals the reference codec); an operation on a bad input fails (error, no panic) alone and concurrently; results do not change after they were returned; every still-open lazy value equals its model after every step (a spoiled one keeps failing); each Send receives the response to its own request; merged plugin output == union, conflicts and failures reported; no data race. " +
+		Rule: "cases are (operation list, schedule parameters): K in 2..64 operations drawn from 15 kinds (Encode, Decode+force, Decode+EvaluateValue, stream write / read / skip under drawn segmentations, envelope encode / decode, ReadRequest, DecodeRequest, serve = ReadRequest or DecodeRequest of a strict / legacy / un-enveloped request followed by the returned responder's EncodeResponse, WriteResponse, or WriteResponse with an Enveloper that fails part-way, and ToWire / Encode / FromWire / Decode of the generated plugin-API types) on pairwise distinct values, run concurrently after a sequential baseline, under GOMAXPROCS in {1,2,16}, with drawn yields inside the codec's I/O callbacks, forced GCs (emptying the sync.Pools) and 1..8 repetitions. In a third of the cases some decoding operations get a bad input that Decode accepts and whose forcing fails part-way (a bool byte 2..255 beneath a list / set / map key / map value, also nested so that the failure surfaces inside the ForEach callback of an outer container; for generated types a struct beneath a list or map without a required field): they must fail alone and in company, and disturb nobody. In one case of 32, two or three extra operations (mostly decoders: stream read, generated Decode, ReadRequest, Decode, envelopes) carry a binary or string of 1 MiB+1 .. 1.5 MiB (distinct fills; as a field, list / set element, map key / value, or two in one value). At the end of the case every result returned earlier (baseline and last repetition; generated values re-rendered) is compared with the model again. " +
+			"A sequential state machine over pool reuse (decode-keep / force / partial = the consumer's callback gives up after n elements, then keeps or closes the value / close / evaluate / drop / GC / decode-bad = spoiled input then EvaluateValue, ForEach+Close of everything, or kept open; one script in 8 with up to three big binaries through stream-read / decode-force / decode-keep, results held without copying until the end of the script; serve steps as in the codec unit; up to three stream writers held open across steps, written through and closed later); K concurrent Sends with distinct payloads on one frame client against a delayed, segmented echo server (synchronous and buffered pipes); frame reader / writer under segmentation and sharing; MultiServiceGenerator / MultiHandle / concurrent.Range fan-out over 1..8 in-process plugins. The whole binary runs under the race detector. " +
+			"Oracle: every concurrent result equals its sequential baseline (which equals the reference codec); an operation on a bad input fails (error, no panic) alone and concurrently; results do not change after they were returned; every still-open lazy value equals its model after every step (a spoiled one keeps failing); a response equals the reference encoding in the request's framing (name and sequence id of the request); the buffer of an open stream writer is a prefix of what was written through it and equals it after Close; each Send receives the response to its own request; merged plugin output == union, conflicts and failures reported; no data race. " +
 			"Non-trivial: K >= 4 operations of >= 2 kinds (codec), >= 4 steps of >= 2 kinds (pool), K >= 4 senders, >= 2 frames, >= 2 generators. Distinct: SHA-256 of the case JSON.",
 		Assumptions: []string{
 			"the harness does not own the Go scheduler: interleavings are sampled; the race detector reports unsynchronised access pairs without needing the bad interleaving",
